@@ -539,10 +539,22 @@ fn render_check(text: &str) -> Option<(Option<String>, J)> {
 pub fn render_replay(args: &[String]) {
     silence_panics();
     let seed = arg_u64(args, "--seed", 1);
+    let recs = read_ndjson(&args[0]);
+    if let Some(f) = arg_value(args, "--pre-ops-file") {
+        // registration history: the same operator names are first registered with OTHER precedences and associativities, every
+        // program is parsed and rendered once under that table (on this thread), and only then the table under test is registered
+        register_ops_file(&f);
+        for (idx, r) in recs.iter().enumerate() {
+            let toks = r["toks"].as_array().unwrap();
+            if realizable(toks) {
+                let case = concretize(toks, seed, idx as u64, &|_| " ".to_string());
+                let _ = render_check(&case.text);
+            }
+        }
+    }
     if let Some(f) = arg_value(args, "--ops-file") {
         register_ops_file(&f);
     }
-    let recs = read_ndjson(&args[0]);
     let mut out = Out::new(None);
     let mut trace = Out::new(arg_value(args, "--trace-out").as_deref());
     let (mut n, mut bad, mut skipped) = (0u64, 0u64, 0u64);
@@ -761,6 +773,11 @@ pub fn paren_replay(args: &[String]) {
 
 pub fn render_one(args: &[String]) {
     silence_panics();
+    if let Some(f) = arg_value(args, "--pre-ops-file") {
+        // an earlier registration of the same operator names, used once, then replaced
+        register_ops_file(&f);
+        let _ = render_check(&args[0]);
+    }
     if let Some(f) = arg_value(args, "--ops-file") {
         register_ops_file(&f);
     }
